@@ -31,6 +31,9 @@ import (
 //	unreg <k>                    -> ok | none       call the closure returned by registration k
 //	add <ev>                     -> <obs>... | -    AddEvent
 //	delay <T> <ev>               -> ok              DelayUntil[T]
+//	ticker                       -> <obs>... | -    AddTicker with an interval of a day: its start event (shown as T<id>) goes
+//	                                                through the queue like any other event; a Tick that pops it starts
+//	                                                the ticker and calls no handler; tickers are removed at el.new / exit
 //	tick                         -> idle | ran <obs>...
 //	len                          -> <n>
 //	vctx <view|nil>              -> c<k>            ViewContext      (one registration)
@@ -247,6 +250,8 @@ type elFam struct {
 	ctxs  []elCtx
 	obs   []string
 	trunc bool
+
+	tickers []int // ids handed out by AddTicker
 }
 
 func (f *elFam) record(s string) {
@@ -364,10 +369,15 @@ func (f *elFam) op(a []string) string {
 		if !ok {
 			return "bad-op"
 		}
+		for _, id := range f.tickers {
+			f.el.RemoveTicker(id)
+		}
 		*f = elFam{}
 		lg := &recLogger{drop: func(x any) {
 			if e, ok := eventOf(x); ok {
 				f.record("drop:" + e.String())
+			} else if id, ok := eventloop.VerifTickerID(x); ok {
+				f.record(fmt.Sprintf("drop:T%d", id))
 			} else {
 				f.record("drop:?")
 			}
@@ -427,6 +437,11 @@ func (f *elFam) op(a []string) string {
 		}
 		delayTyped(f.el, ty, mkEvent(e))
 		return "ok"
+	case a[0] == "ticker" && len(a) == 1:
+		f.obs, f.trunc = f.obs[:0], false
+		id := f.el.AddTicker(24*time.Hour, func(time.Time) any { return nil })
+		f.tickers = append(f.tickers, id)
+		return f.flush()
 	case a[0] == "tick" && len(a) == 1:
 		f.obs, f.trunc = f.obs[:0], false
 		if !f.el.Tick(context.Background()) {
